@@ -280,6 +280,17 @@ impl Property for C06 {
             }
             Ok(())
         })?;
+        // a holder hands in the point at x = 0 (never dealt, but a genuine point of every polynomial:
+        // its y-values are the secret's elements); recovery must cope with it like with any other share
+        if k >= 1 && ctx.ch.chance(1, 4) {
+            let mut b = vec![0u8; 24];
+            b.extend_from_slice(&secret);
+            if let Ok(s) = Share::try_from(&b[..]) {
+                let pos = ctx.ch.index(inbox.len() + 1);
+                inbox.insert(pos, (s, false));
+                ctx.stats.probe("crafted_share_at_x_zero_in_inbox");
+            }
+        }
         // ---- combiner: drawn selections
         let rounds = if ctx.thorough { 5 } else { 3 };
         let mut did_recover = false;
